@@ -1,7 +1,7 @@
 (* C01 property theorems. *)
 From Coq Require Import NArith ZArith List Bool Arith.
 From Coq Require Import Permutation Sorted.
-From OG Require Import C01.Model C01.Proofs C01.Proofs2.
+From OG Require Import C01.Model C01.Proofs C01.Proofs2 C01.Proofs3.
 Import ListNotations.
 
 (* records appended to partition (counter mod n) starting from counter 0, replayed one record per unfinished
@@ -44,6 +44,79 @@ Theorem C01_dropped_measurement_never_comes_back : forall n ops1 m ops2 k, 0 < n
   recovered_repaired n (wrun (ops1 ++ WDrop m :: ops2)) k = None.
 Proof. exact dropped_stays_dropped. Qed.
 Print Assumptions C01_dropped_measurement_never_comes_back.
+
+(* The memtable flush with its per-measurement skip (commitSnapshot leaves out every measurement that carries the deleting
+   mark while the switched log is removed regardless), DROP MEASUREMENT as its steps (mark, flush, remove the data files,
+   clear the mark), the volatile flags (the mark, replayingWal) and crashes that wipe them - machine xstate of Model.v, in
+   the order that checks the replay flag before setting the mark. For EVERY interleaving of acknowledged writes, log
+   switches, commits (with the skip in force at that moment), log removals, drop attempts (begun, refused, finished),
+   crashes and replay completions, and every cell whose measurement has no unfinished drop (x_taint: a drop that began and
+   was not acknowledged - running, or cut short by a crash): what a restart finds (data files as the commits wrote them,
+   overlaid with the live log) is the last-write-wins state of the acknowledged history. So acknowledged rows are never
+   discarded by a flush unless a drop of their measurement is under way; once the drop is acknowledged the equality holds
+   again for that measurement too (XDropDone clears the taint and removes the cells from the acknowledged history). *)
+Theorem C01_flush_skip_exact : forall (clear : bool) (ops : list xop) (k : key),
+  ~ In (mst_of k) (x_taint (xrun false clear ops)) ->
+  x_recovered (xrun false clear ops) k = lww (x_acked (xrun false clear ops)) k.
+Proof. exact flush_skip_exact. Qed.
+Print Assumptions C01_flush_skip_exact.
+
+(* without any drop attempt nothing is ever tainted: exact for every cell, in both orders *)
+Theorem C01_flush_exact_without_drops : forall (clear : bool) (ops : list xop) (k : key),
+  Forall (fun o => match o with XDropBegin _ => False | _ => True end) ops ->
+  x_recovered (xrun false clear ops) k = lww (x_acked (xrun false clear ops)) k.
+Proof.
+  intros clear ops k H. apply flush_skip_exact. rewrite (no_drop_no_taint false clear ops H). intros [].
+Qed.
+Print Assumptions C01_flush_exact_without_drops.
+
+(* a DROP MEASUREMENT attempted while the log is being re-applied is refused and changes NOTHING - no mark, no taint, no
+   data - whatever writes, flush steps, crashes happen between the attempt and the refusal: the run equals the run
+   without the attempt *)
+Theorem C01_refused_drop_changes_nothing : forall (clear : bool) (ops1 ops2 ops3 : list xop) (m : N),
+  x_replaying (xrun false clear ops1) = true ->
+  xrun false clear (ops1 ++ XDropBegin m :: ops2 ++ XDropRefused m :: ops3) = xrun false clear (ops1 ++ ops2 ++ ops3).
+Proof. exact refused_drop_changes_nothing. Qed.
+Print Assumptions C01_refused_drop_changes_nothing.
+
+(* an acknowledged drop (mark set, every switched log removed, no row of m in the open epoch) removes exactly the cells
+   of m from the acknowledged history *)
+Theorem C01_xdrop_spec : forall (early clear : bool) (st : xstate) (m : N),
+  memNb m (x_marks st) && Nat.eqb (length (x_logs st)) 0 && negb (existsb (has_mst m) (x_open st)) = true ->
+  x_acked (xstep early clear st (XDropDone m)) = map (keep_not m) (x_acked st).
+Proof. exact xdrop_spec. Qed.
+Print Assumptions C01_xdrop_spec.
+
+(* sensitivity (model only, not reproduced on the code - it needs a flush to run between two adjacent statements of
+   DropMeasurement): in today's order (mark first, replay check second) a flush between the mark and the refusal discards
+   an acknowledged row although the drop was refused and nothing is pending afterwards *)
+Theorem refused_drop_window_in_todays_order :
+  x_taint (xrun true true window_ops) = [] /\ x_marks (xrun true true window_ops) = [] /\
+  lww (x_acked (xrun true true window_ops)) kx = Some 5%Z /\ x_recovered (xrun true true window_ops) kx = None.
+Proof. exact early_mark_window. Qed.
+Print Assumptions refused_drop_window_in_todays_order.
+
+(* sensitivity (documented mutant): a refusal that leaves the mark set makes the next flush discard the measurement's
+   acknowledged rows; with the mark cleared (either order) they survive *)
+Theorem stale_deleting_mark_loses_rows :
+  lww (x_acked (xrun true false stale_ops)) kx = Some 6%Z /\ x_recovered (xrun true false stale_ops) kx = None /\
+  x_recovered (xrun true true stale_ops) kx = Some 6%Z /\ x_recovered (xrun false true stale_ops) kx = Some 6%Z.
+Proof. exact stale_mark_loses. Qed.
+Print Assumptions stale_deleting_mark_loses_rows.
+
+(* non-vacuity: two measurements (series 1000.. = measurement 1, series 2000.. = measurement 2); a drop of measurement 1
+   runs to its end while measurement 2 is written; a second drop of measurement 2 is cut short by a crash after its flush:
+   measurement 1 is exact (its re-written cell is there, the dropped one is not), measurement 2 is tainted (its last
+   overwrite was discarded by the drop's flush, the older flushed value shows) *)
+Example flush_skip_example :
+  let k1 := (1000, 1, 1)%N in let k1' := (1000, 2, 1)%N in let k2 := (2000, 1, 1)%N in
+  let ops := [XWrite [(k1, 1%Z); (k2, 2%Z)]; XSwitch; XCommit; XRemove; XWrite [(k2, 3%Z)];
+              XDropBegin 1%N; XSwitch; XCommit; XRemove; XDropDone 1%N; XWrite [(k1', 4%Z); (k2, 5%Z)];
+              XDropBegin 2%N; XSwitch; XCommit; XRemove; XCrash] in
+  x_taint (xrun false true ops) = [2%N] /\ x_recovered (xrun false true ops) k1 = None /\
+  x_recovered (xrun false true ops) k1' = Some 4%Z /\ lww (x_acked (xrun false true ops)) k1' = Some 4%Z /\
+  lww (x_acked (xrun false true ops)) k2 = Some 5%Z /\ x_recovered (xrun false true ops) k2 = Some 3%Z.
+Proof. vm_compute. repeat split; reflexivity. Qed.
 
 (* re-applying in order a part of the history that is already in the data files changes nothing (replay of a log
    whose prefix is flushed) *)
